@@ -75,13 +75,13 @@ theorem Sim_ruleBound (r o f o' f' : Bytes) (v : GoVal) (a c : Bool) :
   simp only
   exact Sim_pure_ite _ _ _ (violClause_ne_nil _ _ _ _ _) (violClause_ne_nil _ _ _ _ _)
 
-theorem Sim_ruleEq (r o f o' f' : Bytes) (v : GoVal) (w : Bool) : Sim (ruleEq r o f v w) (ruleEq r o' f' v w) := by
+theorem Sim_ruleEq (e : Ext) (r o f o' f' : Bytes) (v : GoVal) (w : Bool) : Sim (ruleEq e r o f v w) (ruleEq e r o' f' v w) := by
   unfold ruleEq
-  rcases eqCore r v with ⟨x, u, cm, e⟩
+  rcases eqCore r v with ⟨x, u, cm, iseq⟩
   simp only
   sim
 
-theorem Sim_ruleIn (r o f o' f' : Bytes) (v : GoVal) : Sim (ruleIn r o f v) (ruleIn r o' f' v) := by
+theorem Sim_ruleIn (e : Ext) (r o f o' f' : Bytes) (v : GoVal) : Sim (ruleIn e r o f v) (ruleIn e r o' f' v) := by
   unfold ruleIn
   rcases parseValidNameKV r with ⟨k, tv, cm⟩
   simp only
@@ -149,13 +149,13 @@ theorem Sim_ruleRe (e : Ext) (r o f o' f' : Bytes) (v : GoVal) : Sim (ruleRe e r
         sim
   | _ => simp only [checkFieldIsStr]; exact Sim_ne _ _ (gjves_ne _ _ _ _) (gjves_ne _ _ _ _)
 
-theorem Sim_ruleInt (r o f o' f' : Bytes) (v : GoVal) : Sim (ruleInt r o f v) (ruleInt r o' f' v) := by
+theorem Sim_ruleInt (e : Ext) (r o f o' f' : Bytes) (v : GoVal) : Sim (ruleInt e r o f v) (ruleInt e r o' f' v) := by
   unfold ruleInt; rcases parseValidNameKV r with ⟨k, tv, cm⟩; cases v <;> simp only <;> sim
-theorem Sim_ruleFloat (r o f o' f' : Bytes) (v : GoVal) : Sim (ruleFloat r o f v) (ruleFloat r o' f' v) := by
+theorem Sim_ruleFloat (e : Ext) (r o f o' f' : Bytes) (v : GoVal) : Sim (ruleFloat e r o f v) (ruleFloat e r o' f' v) := by
   unfold ruleFloat; rcases parseValidNameKV r with ⟨k, tv, cm⟩; cases v <;> simp only <;> sim
-theorem Sim_ruleInts (r o f o' f' : Bytes) (v : GoVal) : Sim (ruleInts r o f v) (ruleInts r o' f' v) := by
+theorem Sim_ruleInts (e : Ext) (r o f o' f' : Bytes) (v : GoVal) : Sim (ruleInts e r o f v) (ruleInts e r o' f' v) := by
   unfold ruleInts; rcases parseValidNameKV r with ⟨k, tv, cm⟩; cases v <;> simp only <;> sim
-theorem Sim_ruleUnique (r o f o' f' : Bytes) (v : GoVal) : Sim (ruleUnique r o f v) (ruleUnique r o' f' v) := by
+theorem Sim_ruleUnique (e : Ext) (r o f o' f' : Bytes) (v : GoVal) : Sim (ruleUnique e r o f v) (ruleUnique e r o' f' v) := by
   unfold ruleUnique; rcases parseValidNameKV r with ⟨k, tv, cm⟩; cases v <;> simp only <;> sim
 
 theorem Sim_ruleJson (e : Ext) (r o f o' f' : Bytes) (v : GoVal) : Sim (ruleJson e r o f v) (ruleJson e r o' f' v) := by
@@ -200,10 +200,10 @@ theorem Sim_builtinTable : ∀ p ∈ builtinTable, ∀ run, p.2 = .fn run →
   · injection hrun with hrun; subst hrun; exact Sim_ruleBound _ _ _ _ _ _ _ _
   · injection hrun with hrun; subst hrun; exact Sim_ruleBound _ _ _ _ _ _ _ _
   · injection hrun with hrun; subst hrun; exact Sim_ruleBound _ _ _ _ _ _ _ _
-  · injection hrun with hrun; subst hrun; exact Sim_ruleEq _ _ _ _ _ _ _
-  · injection hrun with hrun; subst hrun; exact Sim_ruleEq _ _ _ _ _ _ _
-  · injection hrun with hrun; subst hrun; exact Sim_ruleIn _ _ _ _ _ _
-  · injection hrun with hrun; subst hrun; exact Sim_ruleIn _ _ _ _ _ _
+  · injection hrun with hrun; subst hrun; exact Sim_ruleEq _ _ _ _ _ _ _ _
+  · injection hrun with hrun; subst hrun; exact Sim_ruleEq _ _ _ _ _ _ _ _
+  · injection hrun with hrun; subst hrun; exact Sim_ruleIn _ _ _ _ _ _ _
+  · injection hrun with hrun; subst hrun; exact Sim_ruleIn _ _ _ _ _ _ _
   · injection hrun with hrun; subst hrun; exact Sim_rulePhone _ _ _ _ _ _
   · injection hrun with hrun; subst hrun; exact Sim_ruleEmail _ _ _ _ _ _
   · injection hrun with hrun; subst hrun; exact Sim_ruleIDCard _ _ _ _ _ _
@@ -211,14 +211,14 @@ theorem Sim_builtinTable : ∀ p ∈ builtinTable, ∀ run, p.2 = .fn run →
   · injection hrun with hrun; subst hrun; exact Sim_ruleYear2Month _ _ _ _ _ _ _
   · injection hrun with hrun; subst hrun; exact Sim_ruleDate _ _ _ _ _ _ _
   · injection hrun with hrun; subst hrun; exact Sim_ruleDatetime _ _ _ _ _ _ _
-  · injection hrun with hrun; subst hrun; exact Sim_ruleInt _ _ _ _ _ _
-  · injection hrun with hrun; subst hrun; exact Sim_ruleInts _ _ _ _ _ _
-  · injection hrun with hrun; subst hrun; exact Sim_ruleFloat _ _ _ _ _ _
+  · injection hrun with hrun; subst hrun; exact Sim_ruleInt _ _ _ _ _ _ _
+  · injection hrun with hrun; subst hrun; exact Sim_ruleInts _ _ _ _ _ _ _
+  · injection hrun with hrun; subst hrun; exact Sim_ruleFloat _ _ _ _ _ _ _
   · injection hrun with hrun; subst hrun; exact Sim_ruleRe _ _ _ _ _ _ _
   · injection hrun with hrun; subst hrun; exact Sim_ruleIp _ _ _ _ _ _ _ _
   · injection hrun with hrun; subst hrun; exact Sim_ruleIp _ _ _ _ _ _ _ _
   · injection hrun with hrun; subst hrun; exact Sim_ruleIp _ _ _ _ _ _ _ _
-  · injection hrun with hrun; subst hrun; exact Sim_ruleUnique _ _ _ _ _ _
+  · injection hrun with hrun; subst hrun; exact Sim_ruleUnique _ _ _ _ _ _ _
   · injection hrun with hrun; subst hrun; exact Sim_ruleJson _ _ _ _ _ _ _
   · injection hrun with hrun; subst hrun; exact Sim_rulePrefix _ _ _ _ _ _ _
   · injection hrun with hrun; subst hrun; exact Sim_rulePrefix _ _ _ _ _ _ _
